@@ -22,7 +22,9 @@ RULE = (
     "refill block then holds only part of the stream trailer).  For each resulting joblib file EVERY truncation length 0..len-1 is loaded when len <= 600 "
     "(exhaustive), otherwise the boundary set {0..12, 8192*i+-1, 2**16+-1, 2**20+-1, len-12..len-1} plus 20 seeded offsets; and "
     "the suffix extensions {1 zero byte, 1..64 seeded random bytes, the file's own magic, a copy of itself, another valid "
-    "joblib file with a different compressor}.  Every damaged file is loaded from BytesIO and from a path under a 20 s "
+    "joblib file with a different compressor}.  Mode npfile (numpy from .deps): 1-2 arrays of u1/i4/u8/f8/c16/S3/bool (either byte order, 0..70000 "
+    "elements, C or F) alone or inside a list/dict, every compressor, optionally loaded with mmap_mode='r'; truncations as above plus a dense "
+    "window over the first 400 bytes and 40 seeded offsets (array header, alignment padding and raw payload are read outside the pickle stream).  Every damaged file is loaded from BytesIO and from a path under a 20 s "
     "alarm (normal < 50 ms): it must raise an Exception or return a value deep-equal to the original.  Memory cases: the "
     "same damage applied to output.pkl of a cache entry, then the cached call must return the correct value without "
     "raising.  evaluations = files (objects x configs) and Memory entries damaged; n_damaged_loads counts single loads.  "
@@ -32,8 +34,9 @@ RULE = (
 ASSUMPTIONS = [
     "returning the original object from a damaged file is allowed (e.g. truncation inside a trailing checksum)",
     "a 20 s alarm, confirmed by a 60 s re-run, decides 'never terminates' (normal latency is below 50 ms)",
-    "numpy arrays are covered by C19's generator, not here",
+    "numpy arrays: plain numeric/bytes dtypes only (mode npfile); the full dtype x layout universe is C19's",
 ]
+NEEDS = {"deps"}          # numpy from the offline wheelhouse (array payloads are read by a separate code path)
 SHARDS = {"quick": 8, "thorough": 16}
 ALARM = 20.0
 
@@ -74,7 +77,20 @@ def strategy():
         "tseed": st.integers(0, 10 ** 6),
         "align": st.tuples(st.integers(1, 2), st.integers(-2, 10)).map(list),
     })
-    return st.integers(0, 5).flatmap(lambda i: memcase if i == 0 else boundary if i == 1 else filecase)
+    # joblib files holding numpy arrays: the raw array bytes are read by their own routine, outside the pickle stream
+    npcase = st.fixed_dictionaries({
+        "mode": st.just("npfile"),
+        "arrays": st.lists(st.tuples(st.sampled_from(["u1", "<i4", ">i4", "<u8", "<f8", ">f8", "c16", "S3", "?"]),
+                                     st.one_of(st.integers(0, 40), st.sampled_from([1000, 2047, 2048, 8192, 70000])),
+                                     st.sampled_from(["C", "F2"])).map(list), min_size=1, max_size=2),
+        "wrap": st.sampled_from(["alone", "list", "dict"]),
+        "method": st.sampled_from(["raw", "raw", "zlib", "gzip", "bz2", "lzma", "xz"]),
+        "level": st.sampled_from([None, 1, 3, 9]),
+        "protocol": st.sampled_from([None, 2, 4, 5]),
+        "mmap": st.booleans(),
+        "tseed": st.integers(0, 10 ** 6),
+    })
+    return st.integers(0, 6).flatmap(lambda i: memcase if i == 0 else boundary if i == 1 else npcase if i == 2 else filecase)
 
 
 def _truncations(n, tseed):
@@ -124,15 +140,16 @@ def _runaway(spec, what, exc):
                      signature=_sig(spec, what))
 
 
-def _load_guarded(joblib, src, orig, what, spec):
+def _load_guarded(joblib, src, orig, what, spec, eq=None, mmap_mode=None):
     """Load once under an alarm.  Returns 'raised' / 'original'."""
+    eq = eq or V.deep_eq
     signal.signal(signal.SIGALRM, _on_alarm)
     for limit in (ALARM, 60.0):
         runaway = False
         signal.setitimer(signal.ITIMER_REAL, limit)
         try:
             try:
-                back = joblib.load(src() if callable(src) else src)
+                back = joblib.load(src() if callable(src) else src, mmap_mode=mmap_mode)
             finally:
                 signal.setitimer(signal.ITIMER_REAL, 0)
         except _Timeout:
@@ -150,7 +167,7 @@ def _load_guarded(joblib, src, orig, what, spec):
             # multi-GiB buffers of the runaway loop alive
             gc.collect()
             raise _runaway(spec, what, MemoryError())
-        why = V.deep_eq(orig, back)
+        why = eq(orig, back)
         if why:
             spec["only"] = what
             raise Violation("load of a damaged file (%s) returned a different object: %s; method=%s protocol=%r obj=%s"
@@ -170,11 +187,123 @@ def signature(spec):
     return None
 
 
+def _np_build(spec):
+    import numpy as np
+
+    arrs = []
+    for i, (dt, n, order) in enumerate(spec["arrays"]):
+        raw = random.Random(spec["tseed"] * 7 + i).randbytes(max(n, 1) * (3 if dt == "S3" else 1))[: n * (3 if dt == "S3" else 1)]
+        if dt == "S3":
+            a = np.frombuffer(bytes(32 + b % 90 for b in raw), dtype="S3").copy()
+        elif dt == "?":
+            a = (np.frombuffer(raw, dtype="u1") % 2).astype("?")
+        else:
+            a = np.frombuffer(raw, dtype="u1").astype(dt)     # small exact values in every numeric dtype
+        if order == "F2" and n >= 2 and n % 2 == 0:
+            a = np.asfortranarray(a.reshape(2, n // 2))
+        arrs.append(a)
+    if spec["wrap"] == "alone":
+        return arrs[0]
+    if spec["wrap"] == "list":
+        return ["head", *arrs, "tail \u20ac", 12345]
+    return {"k%d" % i: a for i, a in enumerate(arrs)} | {"tail": ("x", 1.5)}
+
+
+def _np_eq(a, b, path="$"):
+    """None when equal (dtype modulo byte order - the default load converts to native -, shape, order, element values)."""
+    import numpy as np
+
+    if isinstance(a, np.ndarray):
+        if not isinstance(b, np.ndarray):
+            return "%s: %s instead of an ndarray" % (path, type(b).__name__)
+        if a.dtype.newbyteorder("=") != b.dtype.newbyteorder("=") or a.shape != b.shape:
+            return "%s: dtype/shape %s%s != %s%s" % (path, b.dtype, b.shape, a.dtype, a.shape)
+        nat = a.dtype.newbyteorder("=")
+        if a.astype(nat).tobytes() != np.asarray(b).astype(nat).tobytes():
+            return "%s: element values differ" % path
+        return None
+    if type(a) is not type(b):
+        return "%s: type %s != %s" % (path, type(b).__name__, type(a).__name__)
+    if isinstance(a, (list, tuple)):
+        if len(a) != len(b):
+            return "%s: length %d != %d" % (path, len(b), len(a))
+        for i, (x, y) in enumerate(zip(a, b)):
+            r = _np_eq(x, y, "%s[%d]" % (path, i))
+            if r:
+                return r
+        return None
+    if isinstance(a, dict):
+        if list(a) != list(b):
+            return "%s: keys differ" % path
+        for k in a:
+            r = _np_eq(a[k], b[k], "%s[%r]" % (path, k))
+            if r:
+                return r
+        return None
+    return None if a == b else "%s: %r != %r" % (path, b, a)
+
+
+def _run_npfile(spec):
+    import joblib
+
+    scratch = os.environ.get("VF_SCRATCH", "/tmp")
+    obj = _np_build(spec)
+    comp = 0 if spec["method"] == "raw" else (spec["method"], spec["level"])
+    buf = io.BytesIO()
+    joblib.dump(obj, buf, compress=comp, protocol=spec["protocol"])
+    data = buf.getvalue()
+    truncs, exhaustive = _truncations(len(data), spec["tseed"])
+    if not exhaustive:
+        # the array header / padding / payload boundaries are not at fixed offsets: add a dense window after each pickled
+        # array wrapper (found by its class name in the uncompressed file) and a sample across the payload
+        rnd = random.Random(spec["tseed"] + 2)
+        pts = set(truncs) | {rnd.randrange(len(data)) for _ in range(40)} | set(range(0, min(len(data), 400), 3))
+        truncs = sorted(pts)
+    other = io.BytesIO()
+    joblib.dump(["other", 1], other, compress=("bz2", 3) if spec["method"] != "bz2" else ("zlib", 3))
+    exts = _extensions(data, spec["tseed"], other.getvalue())
+    suffixes = dict(exts)
+    only = spec.get("only")
+    path = os.path.join(scratch, "c14-np-%d.bin" % os.getpid())
+    n_loads, interior = 0, False
+    outcomes = {"raised": 0, "original": 0}
+    use_mmap = spec["mmap"] and spec["method"] == "raw"
+
+    try:
+        for what in [["trunc", k] for k in truncs] + [["ext", name] for name, _ in exts]:
+            if only is not None and list(only) != list(what):
+                continue
+            dmg = data[:what[1]] if what[0] == "trunc" else data + suffixes[what[1]]
+            r = _load_guarded(joblib, lambda: io.BytesIO(dmg), obj, what, spec, eq=_np_eq)
+            outcomes[r] += 1
+            n_loads += 1
+            if what[0] == "trunc" and 0 < what[1] < len(data):
+                interior = True
+            if what[0] == "ext" or what[1] % 5 == 0 or only is not None:
+                with open(path, "wb") as f:
+                    f.write(dmg)
+                r = _load_guarded(joblib, path, obj, what, spec, eq=_np_eq, mmap_mode="r" if use_mmap else None)
+                outcomes[r] += 1
+                n_loads += 1
+    finally:
+        if os.path.exists(path):
+            os.unlink(path)
+    _STATS["n_damaged_loads"] = _STATS.get("n_damaged_loads", 0) + n_loads
+    classes = ["numpy-arrays", "method=" + spec["method"], "exhaustive-truncation" if exhaustive else "boundary-truncation"]
+    if use_mmap:
+        classes.append("mmap_mode=r")
+    if outcomes["original"]:
+        classes.append("some-damage-still-returned-original")
+    return {"nontrivial": interior and only is None, "classes": classes}
+
+
 def run_case(spec):
     import joblib
 
     if spec["mode"] == "memory":
         return _run_memory(spec)
+    if spec["mode"] == "npfile":
+        return _run_npfile(spec)
     scratch = os.environ.get("VF_SCRATCH", "/tmp")
     obj = V.build(spec["obj"])
     comp = 0 if spec["method"] == "raw" else (spec["method"], spec["level"])
@@ -207,10 +336,13 @@ def run_case(spec):
     outcomes = {"raised": 0, "original": 0}
     interior = False
     try:
-        damages = [(["trunc", k], data[:k]) for k in truncs] + [(["ext", name], data + suffix) for name, suffix in exts]
-        for what, dmg in damages:
+        # lazily: a 1 MiB object pickled with protocol 0 is several MiB and has hundreds of truncation points
+        damages = [["trunc", k] for k in truncs] + [["ext", name] for name, _ in exts]
+        suffixes = dict(exts)
+        for what in damages:
             if only is not None and list(only) != list(what):
                 continue
+            dmg = data[:what[1]] if what[0] == "trunc" else data + suffixes[what[1]]
             r = _load_guarded(joblib, lambda: io.BytesIO(dmg), obj, what, spec)
             outcomes[r] += 1
             n_loads += 1
